@@ -203,8 +203,8 @@ func c10VerifyTime(r *core.Run) {
 				}
 			}
 		}
-		verifyAll("early")                   // signer certificates still valid
-		w.Sleep(60 * 24 * time.Hour)         // clock jump: they have expired
+		verifyAll("early")           // signer certificates still valid
+		w.Sleep(60 * 24 * time.Hour) // clock jump: they have expired
 		verifyAll("late")
 	})
 	if w.Deadlock != "" {
